@@ -93,6 +93,13 @@ type diff struct{ aspect, detail string }
 // compareView compares every query of the real view with the model. Library panics propagate
 // to the caller (which runs this under mc.Guard).
 func compareView(src gozxing.LuminanceSource, m *vmodel) *diff {
+	return compareViewRows(src, m, false)
+}
+
+// compareViewRows: allFar asks for every row number of farRows; otherwise the two neighbours and
+// three entries of that list chosen by the view's size and first pixel (every view of the search is
+// compared, so the whole list is passed many times over per source kind).
+func compareViewRows(src gozxing.LuminanceSource, m *vmodel, allFar bool) *diff {
 	w, h := src.GetWidth(), src.GetHeight()
 	if w != m.w || h != m.h {
 		return &diff{"dims", fmt.Sprintf("GetWidth/GetHeight = %dx%d, model %dx%d", w, h, m.w, m.h)}
@@ -156,7 +163,16 @@ func compareView(src gozxing.LuminanceSource, m *vmodel) *diff {
 			}
 		}
 	}
-	for _, y := range []int{-1, h} {
+	far := farRows(w, h)
+	if !allFar {
+		start := w*31 + h*17
+		if len(mat) > 0 {
+			start += int(mat[0])
+		}
+		n := len(far)
+		far = []int{-1, h, far[start%n], far[(start+n/3)%n], far[(start+2*n/3)%n]}
+	}
+	for _, y := range far {
 		for _, buf := range [][]byte{nil, exact} {
 			if _, err := src.GetRow(y, buf); err == nil {
 				return &diff{"row-out-of-range", fmt.Sprintf("GetRow(%d) on a view of height %d returned no error", y, h)}
@@ -197,7 +213,7 @@ func (s *stepper) violf(key string, what func() string, op ...vop) {
 // check compares a freshly produced view with its model; opclass names the operation class for the key.
 func (s *stepper) check(ns gozxing.LuminanceSource, nm *vmodel, opclass string, op ...vop) bool {
 	var d *diff
-	pm, site := mc.Guard(func() { d = compareView(ns, nm) })
+	pm, site := mc.Guard(func() { d = compareViewRows(ns, nm, opclass == "init" || len(s.hist) == 0) })
 	base := nm.base
 	if pm != "" {
 		s.viol("C17/panic/"+site+"/"+opclass, "panic while querying the view: "+pm, op...)
@@ -248,7 +264,7 @@ func consequences(ns gozxing.LuminanceSource, m *vmodel, o vop) string {
 		w, h := ns.GetWidth(), ns.GetHeight()
 		out = fmt.Sprintf("the new view reports %dx%d", w, h)
 		panicked, elsewhere := false, false
-		for y := 0; y < h && !(panicked && elsewhere); y++ {
+		for y := 0; y < h && y < 4096 && !(panicked && elsewhere); y++ { // a wrongly accepted view may report any height
 			var row []byte
 			var err error
 			pr, _ := mc.Guard(func() { row, err = ns.GetRow(y, nil) })
@@ -324,7 +340,7 @@ func emptyOK(ns gozxing.LuminanceSource) string {
 			bad = "GetMatrix shorter than width*height"
 			return
 		}
-		for _, y := range []int{-1, h} {
+		for _, y := range farRows(w, h) {
 			if _, err := ns.GetRow(y, nil); err == nil {
 				bad = fmt.Sprintf("GetRow(%d) on an empty view of height %d returned no error", y, h)
 				return
@@ -528,14 +544,14 @@ func menu(m *vmodel, full bool) []vop {
 	if !full {
 		return dedupOps([]vop{c(1, 1, w-2, h-2), c(0, 0, w-1, h), {Op: "invert"}, {Op: "rotate"}, c(1, 0, w-1, h), c(0, 1, w, h-1)})
 	}
-	return dedupOps([]vop{
+	return dedupOps(append([]vop{
 		c(0, 0, w, h), c(1, 1, w-2, h-2), c(0, 0, w-1, h), c(1, 0, w-1, h), c(0, 1, w, h-1), c(w-1, h-1, 1, 1),
 		c(-1, 0, min(w, 3), min(h, 3)), c(0, -1, min(w, 3), min(h, 3)), c(-1, -1, 1, 1),
 		c(0, 0, w+1, h), c(0, 0, w, h+1), c(1, 0, w, h), c(0, 1, w, h), c(w, 0, 1, 1), c(0, h, 1, 1),
 		c(0, 0, m.uw-m.l+1, 1), c(0, 0, 1, m.uh-m.t+1),
 		c(0, 0, 0, h), c(0, 0, w, 0), c(0, 0, -1, h), c(0, 0, w, -1),
 		{Op: "invert"}, {Op: "rotate"}, {Op: "rotate45"},
-	})
+	}, farCrops(w, h)...))
 }
 
 // identities runs the extra transitions of a newly reached state: Invert twice and (where
@@ -742,6 +758,62 @@ func allCrops(l *mc.Local, kind string, w, h int) {
 				}
 			}
 		}
+		for _, o := range farCrops(vw, vh) {
+			src, m := s.replay(hist)
+			s.hist = hist
+			s.step(src, m, o, false)
+			l.Count("transitions", 1)
+			l.Count("evaluations", 1)
+			l.Count("far_crops", 1)
+		}
 		l.Distinct("nontrivial", fmt.Sprintf("allcrops/%s/%dx%d/%d", kind, w, h, len(hist)))
+	}
+}
+
+// farRows lists row numbers outside a view of the given size: the two neighbours, and rows that
+// look like a valid row r once the number (or the offset r*w derived from it) is cut to 8, 16, 31,
+// 32, 48 or 63-log2(w) bits - k*2^b + r for both signs of k - plus the ends of the int range.
+func farRows(w, h int) []int {
+	const maxInt = int(^uint(0) >> 1)
+	out := []int{-1, h, h + 1, maxInt, maxInt - 1, -maxInt - 1, -maxInt}
+	rs := []int{0, 1, 2, h - 1, h / 2}
+	shifts := []uint{8, 16, 31, 32, 33, 48, 56, 58, 60, 62}
+	for lw := uint(0); lw < 16; lw++ { // 2^(64-lw) / 2^lw-wide rows wraps to offset 0
+		if w > 0 && 1<<lw >= w {
+			shifts = append(shifts, 64-lw, 63-lw, 32-lw)
+			break
+		}
+	}
+	for _, b := range shifts {
+		if b >= 63 {
+			continue
+		}
+		for _, r := range rs {
+			if r < 0 {
+				continue
+			}
+			for _, k := range []int{1, -1, 3} {
+				y := k<<b + r
+				if y >= 0 && y < h {
+					continue
+				}
+				out = append(out, y)
+			}
+		}
+	}
+	return out
+}
+
+// farCrops: rectangles far outside the view whose origin + size wraps around the int range, or
+// that look like a rectangle inside the view once an argument is cut to 32 bits.
+func farCrops(w, h int) []vop {
+	const maxInt = int(^uint(0) >> 1)
+	c := func(l, t, cw, ch int) vop { return vop{"crop", l, t, cw, ch} }
+	return []vop{
+		c(maxInt, 0, 1, 1), c(0, maxInt, 1, 1), c(1, 0, maxInt, 1), c(0, 1, 1, maxInt),
+		c(maxInt-w+1, 0, w, 1), c(0, maxInt-h+1, 1, h), c(maxInt, maxInt, maxInt, maxInt),
+		c(1, 1, maxInt, maxInt), c(maxInt/2+1, 0, maxInt/2+1, 1), c(0, maxInt/2+1, 1, maxInt/2+1),
+		c(1<<32, 0, 1, 1), c(0, 1<<32, 1, 1), c(0, 0, 1<<32+w, 1), c(0, 0, 1, 1<<32+h),
+		c(1<<32, 1<<32, w, h), c(0, 0, 1<<32, 1<<32),
 	}
 }
